@@ -14,7 +14,7 @@ from vlib.gentie import gentie_step
 CHECK = Check(
     "C20",
     props_modules=["OW.Props.C20", "OW.Props.Rounded.C20"],
-    families=[Family("K", rtol=1e-9, atol_scale=1e-12, args=["models=ClimateVariables", "prop=C20", "n=400"], label="K-climate")],
+    families=[Family("K", rtol=1e-9, atol_scale=1e-12, args=["models=ClimateVariables", "prop=C20", "n=1500"], label="K-climate")],
     pre_steps=[gentie_step],   # tie A: climate_variables.go regenerated as Lean and proved equal to the hand-written model (gen_eq_ClimateVariables)
     level="proof",
     trusted=[
